@@ -72,6 +72,10 @@ def run_case(case):
     c = build_cell(case)
     out = {}
     sids = [s[0] for s in case["segs"]]
+    if case.get("only_aprox") is not None:
+        # a single deep query (recursion-depth witness): nothing else is computed
+        out["aprox"] = [[i, guarded(lambda i=i: qpt(c.get_actual_proximal(i)))] for i in case["only_aprox"]]
+        return out
     out["aprox"] = [[i, guarded(lambda i=i: qpt(c.get_actual_proximal(i)))] for i in sids]
     out["lens"] = [[i, guarded(lambda i=i: q(float(c.get_segment_length(i))))] for i in sids]
     out["adj"] = guarded(lambda: [[k, list(v)] for k, v in c.get_segment_adjacency_list().items()])
